@@ -17,7 +17,7 @@ from .linear import linear_form, param_lower_bound
 def run(ck: Checker):
     ck.rule('C08-1', 'bounded hand-off: the queue between producer and consumer is constructed with a size a*p + b over the bound parameter with a <= 1, b <= 1 and a lower bound >= 1 (0 would mean unbounded) (LINEAR)', minimum=4)
     ck.rule('C08-2', 'blocking, single store: the producer hands elements over with the blocking put only; pulled elements are held nowhere else (no side container) (WHO/taint)', minimum=4)
-    ck.rule('C08-3', 'pool size and capacity: the executor is created with max_workers = concurrency and the fifo capacity is 2*concurrency (LINEAR)', minimum=4)
+    ck.rule('C08-3', 'pool size and capacity: the executor is created with max_workers = concurrency, released waiting for running calls, and the fifo capacity is 2*concurrency (LINEAR)', minimum=6)
     ck.rule('C08-4', 'invocation bound: an implementation that starts the worker invocation at submission time must gate invocations with a semaphore of size `concurrency` (otherwise up to capacity+3 run at once)', minimum=2)
     ps = c05.pairs(ck)
     for p in ps:
@@ -87,6 +87,15 @@ def run(ck: Checker):
             if lf is None or lf[:3] != (1, 0, 'concurrency'):
                 probs.append(f'`{call_dotted(e)}` is created with max_workers `{norm_text(mw) if mw is not None else None}` = {lf[:3] if lf else "?"}, not 1*concurrency')
         ck.ob('C08-3', f, ex[0], not probs, '; '.join(probs) if probs else f'{len(ex)} executors, each with max_workers = concurrency')
+        # the pool is released WAITING for the calls still running (context manager / shutdown(wait=True)):
+        # otherwise calls of an abandoned iteration overlap those of the next one and `concurrency` is exceeded
+        sc_ = Scope(f)
+        exn = {n.targets[0].id for n in walk_shallow_func(f.node) if isinstance(n, ast.Assign) and n.value in ex and isinstance(n.targets[0], ast.Name)}
+        withs = [n for n in walk_shallow_func(f.node) if isinstance(n, (ast.With, ast.AsyncWith)) and any(isinstance(i.context_expr, ast.Name) and i.context_expr.id in exn for i in n.items)]
+        shut = [n for n in walk_shallow_func(f.node) if isinstance(n, ast.Call) and method_of(n)[1] == 'shutdown' and isinstance(method_of(n)[0], ast.Name) and method_of(n)[0].id in exn]
+        nowait = [n for n in shut if any(k.arg == 'wait' and isinstance(k.value, ast.Constant) and k.value.value is False for k in n.keywords) or (n.args and isinstance(n.args[0], ast.Constant) and n.args[0].value is False)]
+        okr = (bool(withs) or bool(shut)) and not nowait
+        ck.ob('C08-3', f, (withs[0].lineno if withs else (shut[0].lineno if shut else f.node.lineno), 'executor release'), okr, 'the pool is released through its context manager / shutdown(wait=True): no call outlives the iteration' if okr else 'the pool is shut down without waiting for the calls still running: after an early stop they keep running next to the calls of the next iteration — more than `concurrency` invocations at once')
         # capacity handed to the fifo function
         calls = [n for n in walk_shallow_func(f.node) if isinstance(n, ast.Call) and (dotted(n.func) or '') in ('fifo_stream', 'async_fifo_stream')]
         ck.need(calls, f'{f.key}: fifo call not found')
